@@ -406,3 +406,190 @@ func Bad(id, kind, construct, pos, msg string, facts ...string) Result {
 func Anchor(id, kind, what string) Result {
 	return one(id, kind, "anchor:"+what, Violated, 0, "", "anchor not found: "+what)
 }
+
+// ---------------------------------------------------------------------------
+// IMPL — a literal excludes an outcome
+
+// IMPL: from every CFG edge of Fn on which literal Lit holds, no return with outcome Not is reachable
+// (e.g. "+providerID == \"\"" ⇒ Synced never returns true afterwards; "+Nominated()" ⇒ never returns nil).
+type IMPL struct {
+	ID   string
+	Fn   string
+	Lit  string  // literal pattern
+	Not  RetSpec // outcome that must be unreachable
+	Min  int     // minimum number of matching edges (default 1)
+	Note string
+}
+
+func (r IMPL) RuleID() string { return r.ID }
+
+func (r IMPL) Check(w *World) []Result {
+	fn := w.Fn(r.Fn)
+	if fn == nil {
+		return anchorMissing(r.ID, "IMPL", r.Fn)
+	}
+	pat := MustLitPat(r.Lit)
+	construct := "IMPL:" + r.Fn + ":" + r.Lit + "⇒¬" + r.Not.Want
+	sinks := w.ReturnSinks(fn, r.Not)
+	n := 0
+	var out []Result
+	for _, b := range fn.Blocks {
+		t, f, ok := w.BlockLits(b)
+		if !ok {
+			continue
+		}
+		for i, l := range []Lit{t, f} {
+			if !pat.Match(l) {
+				continue
+			}
+			n++
+			reach := Reach([]*ssa.BasicBlock{b.Succs[i]}, nil)
+			for _, s := range sinks {
+				bad := false
+				if s.Pred != nil {
+					bad = reach[s.Pred] || s.Pred == b && b.Succs[i] == s.Ret.Block()
+				} else {
+					bad = reach[s.Ret.Block()]
+				}
+				// a value-dependent outcome that is the negation of the literal itself is excluded
+				if bad && s.Lit != nil && s.Lit.Expr == l.Expr && s.Lit.Pol != l.Pol {
+					bad = false
+				}
+				if bad {
+					out = append(out, one(r.ID, "IMPL", construct, Violated, n, w.InstrPos(b.Instrs[len(b.Instrs)-1]),
+						fmt.Sprintf("in %s, after `%s` holds the function can still return outcome %q (%s @%s)", r.Fn, l, r.Not.Want, s.Desc, w.InstrPos(s.Ret))))
+				}
+			}
+		}
+	}
+	min := r.Min
+	if min == 0 {
+		min = 1
+	}
+	if n < min {
+		return []Result{one(r.ID, "IMPL", construct, Violated, n, w.Pos(fn.Pos()), fmt.Sprintf("vacuous: %d branch(es) on `%s` in %s, %d confirmed by hand — the check was removed or rewritten", n, r.Lit, r.Fn, min))}
+	}
+	if len(out) == 0 {
+		out = append(out, one(r.ID, "IMPL", construct, Discharged, n, w.Pos(fn.Pos()), fmt.Sprintf("%d branch(es); outcome %q unreachable after each", n, r.Not.Want)))
+	}
+	return out
+}
+
+// ---------------------------------------------------------------------------
+// FLAG — loop flag pattern:  ok := true; for … { if bad { ok = false } }; if ok { effect }
+
+// FLAG: every site of Sink in Fn is guarded by "+<bool phi>" and every edge on which Lit holds forces that
+// phi to false (all paths from the edge enter the phi's block through a false-valued phi edge).
+type FLAG struct {
+	ID   string
+	Fn   string
+	Sink string
+	Lit  string
+	Min  int
+	Note string
+}
+
+func (r FLAG) RuleID() string { return r.ID }
+
+func (r FLAG) Check(w *World) []Result {
+	fn := w.Fn(r.Fn)
+	if fn == nil {
+		return anchorMissing(r.ID, "FLAG", r.Fn)
+	}
+	construct := "FLAG:" + r.Fn + "▸" + r.Sink + "⇐¬" + r.Lit
+	sites := w.Sites(fn, regexp.MustCompile(r.Sink), false)
+	if len(sites) == 0 {
+		return []Result{one(r.ID, "FLAG", construct, Violated, 0, w.Pos(fn.Pos()), "vacuous: effect site not found")}
+	}
+	pat := MustLitPat(r.Lit)
+	var out []Result
+	for _, s := range sites {
+		// find a guarding bool phi with polarity +
+		var flag *ssa.Phi
+		b := s.Block()
+		for b != nil && flag == nil {
+			d := b.Idom()
+			if d == nil {
+				break
+			}
+			if len(d.Instrs) > 0 {
+				if ifi, ok := d.Instrs[len(d.Instrs)-1].(*ssa.If); ok && len(b.Preds) == 1 && b.Preds[0] == d && d.Succs[0] == b {
+					if p, ok := ifi.Cond.(*ssa.Phi); ok {
+						flag = p
+					}
+				}
+			}
+			b = d
+		}
+		if flag == nil {
+			out = append(out, one(r.ID, "FLAG", construct, Violated, len(sites), w.InstrPos(s), "effect is not guarded by a loop flag (bool phi) on its true edge"))
+			continue
+		}
+		falseEdge := map[*ssa.BasicBlock]bool{}
+		for i, e := range flag.Edges {
+			if bv, ok := boolConst(e); ok && !bv {
+				falseEdge[flag.Block().Preds[i]] = true
+			}
+		}
+		n := 0
+		for _, blk := range fn.Blocks {
+			t, f, ok := w.BlockLits(blk)
+			if !ok {
+				continue
+			}
+			for i, l := range []Lit{t, f} {
+				if !pat.Match(l) {
+					continue
+				}
+				n++
+				// all paths from blk.Succs[i] into flag.Block() must enter via a false edge
+				start := blk.Succs[i]
+				entered := map[*ssa.BasicBlock]bool{}
+				if start == flag.Block() {
+					entered[blk] = true
+				} else {
+					seen := map[*ssa.BasicBlock]bool{start: true}
+					st := []*ssa.BasicBlock{start}
+					for len(st) > 0 {
+						x := st[len(st)-1]
+						st = st[:len(st)-1]
+						for _, su := range x.Succs {
+							if su == flag.Block() {
+								entered[x] = true
+								continue
+							}
+							if !seen[su] {
+								seen[su] = true
+								st = append(st, su)
+							}
+						}
+					}
+				}
+				for p := range entered {
+					if !falseEdge[p] {
+						out = append(out, one(r.ID, "FLAG", construct, Violated, len(sites), w.InstrPos(blk.Instrs[len(blk.Instrs)-1]),
+							fmt.Sprintf("in %s the branch `%s` does not force the flag guarding `%s` to false", r.Fn, l, clip(w.RenderInstr(s), 80))))
+					}
+				}
+				if len(entered) == 0 {
+					// the edge leaves the loop (return/continue outer) — also fine: the effect for this element is skipped only if sink unreachable
+					if Reach([]*ssa.BasicBlock{start}, nil)[s.Block()] {
+						out = append(out, one(r.ID, "FLAG", construct, Violated, len(sites), w.InstrPos(blk.Instrs[len(blk.Instrs)-1]),
+							fmt.Sprintf("in %s the branch `%s` bypasses the flag but still reaches the effect", r.Fn, l)))
+					}
+				}
+			}
+		}
+		min := r.Min
+		if min == 0 {
+			min = 1
+		}
+		if n < min {
+			out = append(out, one(r.ID, "FLAG", construct, Violated, n, w.Pos(fn.Pos()), fmt.Sprintf("vacuous: %d branch(es) on `%s`, %d confirmed by hand", n, r.Lit, min)))
+		}
+	}
+	if len(out) == 0 {
+		out = append(out, one(r.ID, "FLAG", construct, Discharged, len(sites), w.InstrPos(sites[0]), "flag forced false on every matching branch; effect requires the flag"))
+	}
+	return out
+}
